@@ -15,9 +15,12 @@ fi
 PART="$HERE/build/c12-part1.json"; rm -f "$PART"
 if [ -z "${VERIF_REPLAY:-}" ]; then
   build_seq
-  # the sequential part gets two thirds of the budget
+  # the sequential part gets at most two thirds of the budget
   B=${VERIF_BUDGET_S:-}; if [ -z "$B" ]; then if [ "${VERIF_TIER:-quick}" = thorough ]; then B=1200; else B=100; fi; fi
+  T0=$(date +%s)
   VERIF_BUDGET_S=$((B*2/3)) VERIF_PART_OUT="$PART" "$HERE/build/bin/c12" || { echo "HARNESS-ERROR: sequential part of C12 failed" >&2; exit 2; }
-  export VERIF_PARTS="$PART" VERIF_BUDGET_S=$((B/3))
+  # the concurrent part gets what the sequential part left of the budget (at least a third)
+  LEFT=$((B - ($(date +%s) - T0))); [ "$LEFT" -lt $((B/3)) ] && LEFT=$((B/3))
+  export VERIF_PARTS="$PART" VERIF_BUDGET_S=$LEFT
 fi
 exec "$HERE/bin/schedx-run" aspen c12c "/repo/aspen /repo/x/go /repo/alamos/go /repo/freighter/go"
